@@ -9,6 +9,7 @@ def run(ctx, rep):
     fillrules.check_process_polygon(ctx, rep)
     fillrules.check_fill_queue(ctx, rep)
     fillrules.check_divide(ctx, rep, rules=('S-divide', None))
+    pirules.check_endpoint_guards(ctx, rep, rule='S-nonzero')
     sweeprules.check_loop(ctx, rep)
     sweeprules.check_break(ctx, rep)
     sweeprules.check_comparator(ctx, rep)
